@@ -257,6 +257,14 @@ func cmdPageSyn(args []string) int {
 	r := NewRng(f.Seed)
 	for i := 0; i < f.N; i++ {
 		ks := genKeys(r)
+		big1 := i%40 == 7 // every 40th case: a long listing and a page size around / above 100 (v1 allows up to 1000)
+		if big1 {
+			ks = nil
+			n := 102 + r.Intn(160)
+			for k := 0; k < n; k++ {
+				ks = append(ks, big.NewInt(int64(3*k+r.Intn(3))))
+			}
+		}
 		pick := func() *big.Int {
 			if len(ks) > 0 && r.Chance(80) {
 				k := new(big.Int).Set(Pick(r, ks))
@@ -274,7 +282,10 @@ func cmdPageSyn(args []string) int {
 		if r.Chance(4) {
 			size = 0
 		}
-		if r.Chance(35) {
+		if big1 {
+			size = Pick(r, []uint64{99, 100, 101, 150, 259, 1000})
+		}
+		if r.Chance(35) || big1 && r.Bool() {
 			off := uint64(r.Intn(16))
 			switch r.Intn(12) {
 			case 0:
